@@ -302,7 +302,7 @@ pub fn run(tier: Tier, seed: u64) -> i32 {
 
     // SPS bytes 1..3: one-hot 256 each (quick) / all 2^24 (thorough)
     let mut sps: Vec<[u8; 3]> = vec![];
-    if th {
+    if true {
         for x in 0..(1u32 << 24) {
             sps.push([(x >> 16) as u8, (x >> 8) as u8, x as u8]);
         }
